@@ -21,8 +21,11 @@
 (*           -98 IndexError, -96 any other exception                          *)
 (* Each step is re-executed by the spec (phase "apply"), then every clause is *)
 (* evaluated on the recorded values (phase "check").  A false clause is       *)
-(* written to IOEnv.VERDICT_FILE, one line per (record, clause, set of        *)
-(* deviations that explain it exactly); the trace continues.                  *)
+(* written to IOEnv.VERDICT_FILE, one line per (record, clause, set of old     *)
+(* defects (Dev_ predicates) whose return explains it exactly); the trace goes on. *)
+(* "note.*" lines are not property clauses: note.Transcription = the object   *)
+(* answered correctly but not as the transcription does (drift);              *)
+(* note.PointRange = at() read NaN where its docstring promises IndexError.   *)
 EXTENDS RingBuffer
 
 VARIABLES tid, l, ph, acc
@@ -86,19 +89,24 @@ QueryChecks(o, rp, ab) ==
         s(it) == QT(o, it[1])
         e(it) == QT(o, it[2])
         okD(it)  == Matches(gotD(it), WinDTSlots(ab, s(it), e(it)), Fills[it[4]])
-        \* a deviation explains a wrong answer only if the answer is exactly the transcription's
-        devD(it) == IF gotD(it) # WinDTImpl(rp, s(it), e(it), Fills[it[4]]) THEN {}
+        \* a wrong answer carries the name of an old defect only if it is exactly the old design's answer
+        devD(it) == IF gotD(it) # WinDTOld(rp, s(it), e(it), Fills[it[4]]) THEN {}
                     ELSE (IF Dev_SameSlotFullBuffer(rp, s(it), e(it)) THEN {"Dev_SameSlotFullBuffer"} ELSE {})
                          \cup (IF Dev_FillFromRawStart(rp, s(it), e(it), Fills[it[4]]) THEN {"Dev_FillFromRawStart"} ELSE {})
         descD(it) == <<"window ticks", s(it), e(it), "variant", it[4], "got", gotD(it),
                        "slots", WinDTSlots(ab, s(it), e(it)), "win", win, "newest", aNewest, "R", R>>
         okS(it)  == gotD(it) \in {<<ERR>>, <<-96>>} \/ Len(gotD(it)) <= SpanSlots(s(it), e(it))   \* an exception returns no slots
-        devS(it) == IF gotD(it) = WinDTImpl(rp, s(it), e(it), Fills[it[4]]) /\ Dev_SameSlotFullBuffer(rp, s(it), e(it))
+        devS(it) == IF gotD(it) = WinDTOld(rp, s(it), e(it), Fills[it[4]]) /\ Dev_SameSlotFullBuffer(rp, s(it), e(it))
                     THEN {"Dev_SameSlotFullBuffer"} ELSE {}
         descS(it) == <<"window ticks", s(it), e(it), "variant", it[4], "returned", Len(gotD(it)), "slots spanned", SpanSlots(s(it), e(it))>>
+        \* not a property clause: a correct answer that is not the transcription's (drift)
+        trI(it) == ~okI(it) \/ gotI(it) = WinIdxImpl(rp, IdxArgs[it[1]], IdxArgs[it[2]], Fills[it[4]])
+        trD(it) == ~okD(it) \/ gotD(it) = WinDTImpl(rp, s(it), e(it), Fills[it[4]])
     IN /\ Group("C09.WindowIndex", IdxItems(o), okI, devI, descI)
        /\ Group("C09.WindowDatetime", DTItems(o), okD, devD, descD)
        /\ Group("C09.NoMoreThanSpan", DTItems(o), okS, devS, descS)
+       /\ Group("note.Transcription", IdxItems(o), trI, devI, descI)
+       /\ Group("note.Transcription", DTItems(o), trD, devI, descD)
 
 PIItems(o) == {<<i, c>> \in (1..Len(PKeys)) \X (1..4) : c <= Len(o.o.pi[i])}
 PDItems(o) == {<<i, c>> \in (1..NQ(o)) \X (1..4) : c <= Len(o.o.pd[i])}
@@ -106,22 +114,26 @@ PointChecks(o, rp, ab) ==
     LET gotI(it) == o.o.pi[it[1]][it[2]]
         k(it)    == PKeys[it[1]]
         okI(it)  == PointIntClause(ab, gotI(it), k(it))
-        devI(it) == IF gotI(it) # PointIntImpl(rp, k(it)) THEN {}
+        devI(it) == IF gotI(it) # PointIntOld(rp, k(it)) THEN {}
                     ELSE (IF Dev_PointIgnoresGaps(rp, GetTs(rp, k(it))) THEN {"Dev_PointIgnoresGaps"} ELSE {})
                          \cup (IF Dev_PointOnePastNewest(rp, GetTs(rp, k(it))) THEN {"Dev_PointOnePastNewest"} ELSE {})
         descI(it) == <<"at", k(it), "got", gotI(it), "slot", PointIntSlot(ab, k(it)), "win", win, "newest", aNewest>>
         gotD(it) == o.o.pd[it[1]][it[2]]
         t(it)    == QT(o, it[1])
         okD(it)  == PointDTClause(ab, gotD(it), t(it))
-        devD(it) == IF gotD(it) # PointDTImpl(rp, t(it)) THEN {}
+        devD(it) == IF gotD(it) # PointDTOld(rp, t(it)) THEN {}
                     ELSE IF Dev_PointIgnoresGaps(rp, t(it)) THEN {"Dev_PointIgnoresGaps"} ELSE {}
         descD(it) == <<"at tick", t(it), "got", gotD(it), "slot", NSlot(t(it)), "win", win, "newest", aNewest, "R", R>>
         okR(it)  == PointIntRange(ab, gotI(it), k(it)) \/ ~okI(it)
         descR(it) == <<"at", k(it), "got", gotI(it), "covered", ab.covered>>
         none(it) == {}
+        trI(it) == ~okI(it) \/ gotI(it) = PointIntImpl(rp, k(it))
+        trD(it) == ~okD(it) \/ gotD(it) = PointDTImpl(rp, t(it))
     IN /\ Group("C09.PointQueryNoStale", PIItems(o), okI, devI, descI)
        /\ Group("C09.PointQueryNoStale", PDItems(o), okD, devD, descD)
        /\ Group("note.PointRange", PIItems(o), okR, none, descR)
+       /\ Group("note.Transcription", PIItems(o), trI, none, descI)
+       /\ Group("note.Transcription", PDItems(o), trD, none, descD)
 
 \* how often the antecedents were exercised (vacuity guards, summed by the driver)
 Stats(o, rp, ab) ==
@@ -142,7 +154,7 @@ Stats(o, rp, ab) ==
       idxNonEmpty |-> Cardinality({<<i, j>> \in (1..NI) \X (1..NI) : Len(WinIdxSlots(ab, IdxArgs[i], IdxArgs[j])) > 0}),
       ptInRange |-> Cardinality({i \in 1..Len(PKeys) : InCovered(ab, PointIntSlot(ab, PKeys[i]))}),
       devPtGap  |-> Cardinality({i \in 1..Len(PKeys) : Dev_PointIgnoresGaps(rp, GetTs(rp, PKeys[i]))})
-                    + Cardinality({i \in 1..nq : Dev_PointIgnoresGaps(rp, QT(o, i)) /\ PointDTImpl(rp, QT(o, i)) # ERR}),
+                    + Cardinality({i \in 1..nq : Dev_PointIgnoresGaps(rp, QT(o, i)) /\ PointDTOld(rp, QT(o, i)) # ERR}),
       devPtPast |-> Cardinality({i \in 1..Len(PKeys) : Dev_PointOnePastNewest(rp, GetTs(rp, PKeys[i]))}) ]
 StatKeys == {"obs", "rejected", "gapsGE2", "staleGap", "missWrite", "wrapped", "dtQueries", "dtOffGrid", "dtNonEmpty",
              "dtWithFill", "devSameSlot", "devFill", "idxNonEmpty", "ptInRange", "devPtGap", "devPtPast"}
